@@ -797,11 +797,26 @@ def read_cache_entry(
         name, _consumed = _decompress_path_from_stream(f, previous_path)
     else:
         # Versions < 4: regular name reading
-        name = f.read(flags & FLAG_NAMEMASK)
+        name_len = flags & FLAG_NAMEMASK
+        name = f.read(name_len)
+        nul_consumed = 0
+        if name_len == FLAG_NAMEMASK:
+            # The length field is saturated: the name is 0xFFF bytes or longer
+            # and runs up to the first NUL
+            rest = bytearray()
+            while True:
+                byte_data = f.read(1)
+                if not byte_data:
+                    raise ValueError("Unexpected end of file while reading path")
+                if byte_data == b"\0":
+                    nul_consumed = 1
+                    break
+                rest += byte_data
+            name += bytes(rest)
 
-    # Padding:
-    if version < 4:
-        real_size = (f.tell() - beginoffset + 8) & ~7
+        # Padding: 1-8 NUL bytes up to a multiple of 8 bytes
+        entry_size = f.tell() - nul_consumed - beginoffset
+        real_size = (entry_size + 8) & ~7
         f.read((beginoffset + real_size) - f.tell())
 
     return SerializedIndexEntry(
@@ -840,7 +855,8 @@ def write_cache_entry(
         # Version 4: use compression but set name_len to actual filename length
         # This matches how C Git implements index v4 flags
         compressed_path = _compress_path(entry.name, previous_path)
-    flags = len(entry.name) | (entry.flags & ~FLAG_NAMEMASK)
+    # The name length field saturates at 0xFFF; longer names are NUL-terminated
+    flags = min(len(entry.name), FLAG_NAMEMASK) | (entry.flags & ~FLAG_NAMEMASK)
 
     if entry.extended_flags:
         flags |= FLAG_EXTENDED
